@@ -4,7 +4,7 @@
         | B:namehex:bits:labelalign:addr:size:addr_end:outp:fill    (each field exprhex or `-`; fill 0|1)   = #bankdef
         | K:namehex                                                                                        = #bank
    mode: (none) = Resolver2.assemble2
-         `cert` TAB sized-symbols(name=hex:size|-; name=bool:0|1; name=str:hex:enc ...) TAB banks TAB bits
+         `cert` TAB sized-symbols(name=hex:size|-; name=bool:0|1; name=str:hex:enc; name=void:-; name=failed:- ...) TAB banks TAB bits
                 = Spec.Certificate2.cert_check2 on a claimed result
    answer: OK TAB bits TAB iterations TAB name=hexvalue;... TAB banks TAB spans | ERR | PANIC | CERT-OK | CERT-FAIL
      banks = `;`-joined  addr([-]hex),unit,labelalign|-,size|-,outp|-,fill   (numbers in hex; index 0 = default bank)
@@ -61,6 +61,8 @@ let () = iter_lines (fun line ->
             | [n; vs] ->
               let nt = List.map n_of_int (decode_utf8 n) in
               (match String.split_on_char ':' vs with
+               | ["void"; _] -> [(nt, VVoid)]
+               | ["failed"; _] -> [(nt, VFailed)]
                | ["bool"; v] -> [(nt, VBool (v = "1"))]
                | ["str"; h; enc] -> [(nt, VStr (text_of_hex h, n_of_int (match enc with "utf8" -> 0 | "utf16be" -> 1 | "utf16le" -> 2 | "utf32be" -> 3 | "utf32le" -> 4 | _ -> 5)))]
                | [v; sz] -> [(nt, VInt { bv = z_of_hex v; bsz = (if sz = "-" then None else Some (n_of_int (int_of_string sz))) })]
